@@ -102,6 +102,20 @@ NumInField(n, fld) ==
               \o (IF fld.decimals > 0 THEN <<Dot>> \o Zeros(fld.decimals) ELSE <<>>)
   IN [fits |-> Len(body) <= fld.width, text |-> Blanks(fld.width - Len(body)) \o body]
 
+\* text of the number c / 100 (c a whole number of hundredths, |c| >= 100) in a numeric field: rounded to the decimals
+\* of the field (the generator avoids ties, which the property does not fix)
+Abs(x) == IF x < 0 THEN 0 - x ELSE x
+TwoDigits(n) == <<48 + (n \div 10), 48 + (n % 10)>>
+ScaledInField(c, fld) ==
+  LET a == Abs(c)
+      d == fld.decimals
+      whole == IF d = 0 THEN (a + 50) \div 100 ELSE IF d = 1 THEN ((a + 5) \div 10) \div 10 ELSE a \div 100
+      frac == IF d = 0 THEN <<>> ELSE IF d = 1 THEN <<Dot, 48 + (((a + 5) \div 10) % 10)>>
+              ELSE <<Dot>> \o TwoDigits(a % 100) \o Zeros(d - 2)
+      ds == NatDigits(whole)
+      body == (IF c < 0 THEN <<45>> ELSE <<>>) \o (IF fld.comma THEN Group3(ds) ELSE ds) \o frac
+  IN [fits |-> Len(body) <= fld.width, text |-> Blanks(fld.width - Len(body)) \o body]
+
 StrInField(s, n) == IF Len(s) >= n THEN SubSeq(s, 1, n) ELSE s \o Blanks(n - Len(s))
 
 \* result of PRINT USING: [ok, text] ; ok = FALSE when the statement is outside the
@@ -124,7 +138,7 @@ Using(f, i, vals, j, acc, wrapped) ==
        ELSE Using(f, e + 1, vals, j + 1, acc \o StrInField(v.v, e - i + 1), FALSE))
     ELSE
       (LET fld == NumField(f, i)
-           r == NumInField(v.v, fld)
+           r == IF "c" \in DOMAIN v THEN ScaledInField(v.c, fld) ELSE NumInField(v.v, fld)
        IN IF v.k # "num" \/ ~r.fits THEN [ok |-> FALSE, text |-> acc]
           ELSE Using(f, fld.last + 1, vals, j + 1, acc \o r.text, FALSE))
 
